@@ -10,7 +10,7 @@ CFG = dict(
     ],
     crate="nvh_c05",
     header=H + "From NV.C05 Require Import Model Run.\nOpen Scope N_scope.",
-    kinds={"seq": ("seq_case", "check_seq"), "conc": ("conc_case", "check_conc"), "mixed": ("mixed_case", "check_mixed")},
+    kinds={"seq": ("seq_case", "check_seq"), "conc": ("conc_case", "check_conc"), "mixed": ("mixed_case", "check_mixed"), "trav": ("trav_case", "check_trav")},
     known_classes={0: "concurrent-delete-node"},
     shard=10,
     rule="seeded sequences of create_node/create_edge (directed, undirected, self-loops, parallel)/batch_create_edges/delete_edge/delete_node/update_node/update_edge on 1-8 nodes incl. missing ids, observed through the public reads after every operation; 2-8 threads behind a barrier on a shared engine (hub creations, creations + deletions/updates of overlapping setup edges, mixes with node deletions), observed at quiescence; batch_create_edges racing create_edge for edge ids (deterministic through the hook graph.batch_edge_ids, plus 2/4/8-thread stress; every id handed out must be unique); delete_node above the rayon threshold; kind `mixed`: a concurrent creation phase (deterministic, through the hook: the thread holding the smaller edge id is held at its first list while the other appends the larger id to the shared node's lists first, so those lists end up in NON-ascending order; plus 2/4/8-thread hub stress) followed by sequential delete_edge/delete_node with the structural oracle and the model compared after every step",
